@@ -1518,14 +1518,14 @@ class IPv6(_pre.Pregex):
 
         empty = _pre.Pregex()
 
-        for i in range(9):
+        for i in range(8):
             pre = _op.Either(
                 pre,
                 (_qu.AtLeastAtMost(hex_group + ":", n=0, m=i-1) if i > 1 else empty) + \
                 (hex_group if i > 0 else empty) + \
                 "::" + \
-                (_qu.AtLeastAtMost(hex_group + ":", n=0, m=7-i) if i < 7 else empty)+ \
-                (hex_group if i < 8 else empty)
+                (_qu.AtLeastAtMost(hex_group + ":", n=0, m=6-i) if i < 6 else empty)+ \
+                (hex_group if i < 7 else empty)
             )
 
         pre = _op.Either(pre, "::")
